@@ -9,6 +9,12 @@ package gedcom
 // ---------------------------------------------------------------------------
 // Dates as day numbers (C05, C06)
 //
+// Contracts are total: a function under contract has no `requires`; what the
+// property assumes about the inputs is the antecedent `ok` of each
+// postcondition, so callers need not establish anything and rely only on the
+// cases they can show. Year 1 end bounds are excluded from `ok` in callers of
+// Date.Time because of the known finding C05 (see /verif/known_findings.json).
+//
 // A date "shape" is valid when it is a full calendar date, a month and a
 // year, or a year alone, with the year in 1..9999.
 //
@@ -21,11 +27,11 @@ package gedcom
 //
 //@ func Date.Time
 //@   props C05 C06
-//@   requires shapeOK(date.Day, date.Month, date.Year)
-//@   ensures start: implies(!date.IsEndOfRange, result == firstDay(date.Day, date.Month, date.Year)*NSDAY)
-//@   ensures end: implies(date.IsEndOfRange, result == (lastDay(date.Day, date.Month, date.Year) + 1)*NSDAY - 1)
-//@   ensures civil-start: implies(!date.IsEndOfRange, isCivil(firstDay(date.Day, date.Month, date.Year), date.Year, ite(date.Month != 0, date.Month, 1), ite(date.Day != 0, date.Day, 1)))
-//@   ensures civil-end: implies(date.IsEndOfRange, isCivil(lastDay(date.Day, date.Month, date.Year), date.Year, ite(date.Month != 0, date.Month, 12), ite(date.Day != 0, date.Day, ite(date.Month != 0, dim(date.Month, date.Year), 31))))
+//@   let ok = (shapeOK(date.Day, date.Month, date.Year))
+//@   ensures start: implies(ok, implies(!date.IsEndOfRange, result == firstDay(date.Day, date.Month, date.Year)*NSDAY))
+//@   ensures end: implies(ok, implies(date.IsEndOfRange, result == (lastDay(date.Day, date.Month, date.Year) + 1)*NSDAY - 1))
+//@   ensures civil-start: implies(ok, implies(!date.IsEndOfRange, isCivil(firstDay(date.Day, date.Month, date.Year), date.Year, ite(date.Month != 0, date.Month, 1), ite(date.Day != 0, date.Day, 1))))
+//@   ensures civil-end: implies(ok, implies(date.IsEndOfRange, isCivil(lastDay(date.Day, date.Month, date.Year), date.Year, ite(date.Month != 0, date.Month, 12), ite(date.Day != 0, date.Day, ite(date.Month != 0, dim(date.Month, date.Year), 31)))))
 //@   assigns nothing
 
 // ---------------------------------------------------------------------------
@@ -45,9 +51,8 @@ package gedcom
 //
 //@ func compareDatesForLetter
 //@   props C06
-//@   requires shapeOK(value.Day, value.Month, value.Year) && shapeOK(start.Day, start.Month, start.Year) && shapeOK(end.Day, end.Month, end.Year)
-//@   requires !(value.IsEndOfRange && value.Year == 1 && value.Month <= 1 && value.Day <= 1) && !(end.IsEndOfRange && end.Year == 1 && end.Month <= 1 && end.Day <= 1) && !(start.IsEndOfRange && start.Year == 1 && start.Month <= 1 && start.Day <= 1)
-//@   ensures letter: result == letter(dayOf(value.Day, value.Month, value.Year, value.IsEndOfRange), dayOf(start.Day, start.Month, start.Year, start.IsEndOfRange), dayOf(end.Day, end.Month, end.Year, end.IsEndOfRange))
+//@   let ok = (shapeOK(value.Day, value.Month, value.Year) && shapeOK(start.Day, start.Month, start.Year) && shapeOK(end.Day, end.Month, end.Year)) && (!(value.IsEndOfRange && value.Year == 1 && value.Month <= 1 && value.Day <= 1) && !(end.IsEndOfRange && end.Year == 1 && end.Month <= 1 && end.Day <= 1) && !(start.IsEndOfRange && start.Year == 1 && start.Month <= 1 && start.Day <= 1))
+//@   ensures letter: implies(ok, result == letter(dayOf(value.Day, value.Month, value.Year, value.IsEndOfRange), dayOf(start.Day, start.Month, start.Year, start.IsEndOfRange), dayOf(end.Day, end.Month, end.Year, end.IsEndOfRange)))
 //@   assigns nothing
 //
 //@ func DateRange.Compare
@@ -56,14 +61,11 @@ package gedcom
 //@   let b = lastDay(dr.end.Day, dr.end.Month, dr.end.Year)
 //@   let c = firstDay(dr2.start.Day, dr2.start.Month, dr2.start.Year)
 //@   let d = lastDay(dr2.end.Day, dr2.end.Month, dr2.end.Year)
-//@   requires shapeOK(dr.start.Day, dr.start.Month, dr.start.Year) && shapeOK(dr.end.Day, dr.end.Month, dr.end.Year) && shapeOK(dr2.start.Day, dr2.start.Month, dr2.start.Year) && shapeOK(dr2.end.Day, dr2.end.Month, dr2.end.Year)
-//@   requires !dr.start.IsEndOfRange && dr.end.IsEndOfRange && !dr2.start.IsEndOfRange && dr2.end.IsEndOfRange
-//@   requires !(dr.end.Year == 1 && dr.end.Month <= 1 && dr.end.Day <= 1) && !(dr2.end.Year == 1 && dr2.end.Month <= 1 && dr2.end.Day <= 1)
-//@   requires a <= b && c <= d
-//@   ensures code-shape: result == cmpCode(a, b, c, d)
-//@   ensures doc-relation: inR(result, a, b, c, d)
-//@   ensures never-invalid: result != DateRangeComparisonInvalid
-//@   ensures self-equal: implies(a == c && b == d, result == DateRangeComparisonEqual)
+//@   let ok = (shapeOK(dr.start.Day, dr.start.Month, dr.start.Year) && shapeOK(dr.end.Day, dr.end.Month, dr.end.Year) && shapeOK(dr2.start.Day, dr2.start.Month, dr2.start.Year) && shapeOK(dr2.end.Day, dr2.end.Month, dr2.end.Year)) && (!dr.start.IsEndOfRange && dr.end.IsEndOfRange && !dr2.start.IsEndOfRange && dr2.end.IsEndOfRange) && (!(dr.end.Year == 1 && dr.end.Month <= 1 && dr.end.Day <= 1) && !(dr2.end.Year == 1 && dr2.end.Month <= 1 && dr2.end.Day <= 1)) && (a <= b && c <= d)
+//@   ensures code-shape: implies(ok, result == cmpCode(a, b, c, d))
+//@   ensures doc-relation: implies(ok, inR(result, a, b, c, d))
+//@   ensures never-invalid: implies(ok, result != DateRangeComparisonInvalid)
+//@   ensures self-equal: implies(ok, implies(a == c && b == d, result == DateRangeComparisonEqual))
 //@   assigns nothing
 //
 //@ lemma converse props C06: forall(a, forall(b, forall(c, forall(d, implies(a <= b && c <= d && a != b && c != d, cmpCode(a, b, c, d) == conv(cmpCode(c, d, a, b)))))))
@@ -100,23 +102,20 @@ package gedcom
 //
 //@ func Date.Years
 //@   props C05
-//@   requires shapeOK(date.Day, date.Month, date.Year)
-//@   requires !(date.IsEndOfRange && date.Year == 1 && date.Month <= 1 && date.Day <= 1)
-//@   ensures scale-code-form: result == yearsSpecDiv(date.Day, date.Month, date.Year)
-//@   ensures scale: result == yearsSpec(date.Day, date.Month, date.Year)
+//@   let ok = (shapeOK(date.Day, date.Month, date.Year)) && (!(date.IsEndOfRange && date.Year == 1 && date.Month <= 1 && date.Day <= 1))
+//@   ensures scale-code-form: implies(ok, result == yearsSpecDiv(date.Day, date.Month, date.Year))
+//@   ensures scale: implies(ok, result == yearsSpec(date.Day, date.Month, date.Year))
 //@   assigns nothing
 //
 //@ func Date.IsBefore
 //@   props C05
-//@   requires shapeOK(date.Day, date.Month, date.Year) && shapeOK(date2.Day, date2.Month, date2.Year)
-//@   requires !(date.IsEndOfRange && date.Year == 1 && date.Month <= 1 && date.Day <= 1) && !(date2.IsEndOfRange && date2.Year == 1 && date2.Month <= 1 && date2.Day <= 1)
-//@   ensures order: result == (yearsSpec(date.Day, date.Month, date.Year) < yearsSpec(date2.Day, date2.Month, date2.Year))
+//@   let ok = (shapeOK(date.Day, date.Month, date.Year) && shapeOK(date2.Day, date2.Month, date2.Year)) && (!(date.IsEndOfRange && date.Year == 1 && date.Month <= 1 && date.Day <= 1) && !(date2.IsEndOfRange && date2.Year == 1 && date2.Month <= 1 && date2.Day <= 1))
+//@   ensures order: implies(ok, result == (yearsSpec(date.Day, date.Month, date.Year) < yearsSpec(date2.Day, date2.Month, date2.Year)))
 //@   assigns nothing
 //@ func Date.IsAfter
 //@   props C05
-//@   requires shapeOK(date.Day, date.Month, date.Year) && shapeOK(date2.Day, date2.Month, date2.Year)
-//@   requires !(date.IsEndOfRange && date.Year == 1 && date.Month <= 1 && date.Day <= 1) && !(date2.IsEndOfRange && date2.Year == 1 && date2.Month <= 1 && date2.Day <= 1)
-//@   ensures order: result == (yearsSpec(date.Day, date.Month, date.Year) > yearsSpec(date2.Day, date2.Month, date2.Year))
+//@   let ok = (shapeOK(date.Day, date.Month, date.Year) && shapeOK(date2.Day, date2.Month, date2.Year)) && (!(date.IsEndOfRange && date.Year == 1 && date.Month <= 1 && date.Day <= 1) && !(date2.IsEndOfRange && date2.Year == 1 && date2.Month <= 1 && date2.Day <= 1))
+//@   ensures order: implies(ok, result == (yearsSpec(date.Day, date.Month, date.Year) > yearsSpec(date2.Day, date2.Month, date2.Year)))
 //@   assigns nothing
 //
 // Property-level statements over the spec functions the code is proved against.
@@ -140,32 +139,124 @@ package gedcom
 //@   assigns nothing
 //@ func Date.Sub
 //@   props C05
-//@   requires shapeOK(date.Day, date.Month, date.Year) && shapeOK(date2.Day, date2.Month, date2.Year)
-//@   requires !(date.IsEndOfRange && date.Year == 1 && date.Month <= 1 && date.Day <= 1) && !(date2.IsEndOfRange && date2.Year == 1 && date2.Month <= 1 && date2.Day <= 1)
-//@   ensures distance: result.Duration == abs(timeSpec(date.Day, date.Month, date.Year, date.IsEndOfRange) - timeSpec(date2.Day, date2.Month, date2.Year, date2.IsEndOfRange))
-//@   ensures known: result.IsKnown == isnil(date.ParseError)
+//@   let ok = (shapeOK(date.Day, date.Month, date.Year) && shapeOK(date2.Day, date2.Month, date2.Year)) && (!(date.IsEndOfRange && date.Year == 1 && date.Month <= 1 && date.Day <= 1) && !(date2.IsEndOfRange && date2.Year == 1 && date2.Month <= 1 && date2.Day <= 1))
+//@   ensures distance: implies(ok, result.Duration == abs(timeSpec(date.Day, date.Month, date.Year, date.IsEndOfRange) - timeSpec(date2.Day, date2.Month, date2.Year, date2.IsEndOfRange)))
+//@   ensures known: implies(ok, result.IsKnown == isnil(date.ParseError))
 //@   assigns nothing
 //@ func DateRange.Duration
 //@   props C05
-//@   requires shapeOK(dr.start.Day, dr.start.Month, dr.start.Year) && shapeOK(dr.end.Day, dr.end.Month, dr.end.Year)
-//@   requires !dr.start.IsEndOfRange && dr.end.IsEndOfRange && !(dr.end.Year == 1 && dr.end.Month <= 1 && dr.end.Day <= 1)
-//@   requires firstDay(dr.start.Day, dr.start.Month, dr.start.Year) <= lastDay(dr.end.Day, dr.end.Month, dr.end.Year)
-//@   ensures length: result.Duration == (lastDay(dr.end.Day, dr.end.Month, dr.end.Year) - firstDay(dr.start.Day, dr.start.Month, dr.start.Year) + 1)*NSDAY - 1
+//@   let ok = (shapeOK(dr.start.Day, dr.start.Month, dr.start.Year) && shapeOK(dr.end.Day, dr.end.Month, dr.end.Year)) && (!dr.start.IsEndOfRange && dr.end.IsEndOfRange && !(dr.end.Year == 1 && dr.end.Month <= 1 && dr.end.Day <= 1)) && (firstDay(dr.start.Day, dr.start.Month, dr.start.Year) <= lastDay(dr.end.Day, dr.end.Month, dr.end.Year))
+//@   ensures length: implies(ok, result.Duration == (lastDay(dr.end.Day, dr.end.Month, dr.end.Year) - firstDay(dr.start.Day, dr.start.Month, dr.start.Year) + 1)*NSDAY - 1)
 //@   assigns nothing
 //@ func DateRange.Years
 //@   props C05 C12
-//@   requires shapeOK(dr.start.Day, dr.start.Month, dr.start.Year) && shapeOK(dr.end.Day, dr.end.Month, dr.end.Year)
-//@   requires !dr.start.IsEndOfRange && dr.end.IsEndOfRange && !(dr.end.Year == 1 && dr.end.Month <= 1 && dr.end.Day <= 1)
-//@   ensures midpoint: result == (yearsSpec(dr.start.Day, dr.start.Month, dr.start.Year) + yearsSpec(dr.end.Day, dr.end.Month, dr.end.Year))/2.0
+//@   let ok = (shapeOK(dr.start.Day, dr.start.Month, dr.start.Year) && shapeOK(dr.end.Day, dr.end.Month, dr.end.Year)) && (!dr.start.IsEndOfRange && dr.end.IsEndOfRange && !(dr.end.Year == 1 && dr.end.Month <= 1 && dr.end.Day <= 1))
+//@   ensures midpoint: implies(ok, result == (yearsSpec(dr.start.Day, dr.start.Month, dr.start.Year) + yearsSpec(dr.end.Day, dr.end.Month, dr.end.Year))/2.0)
 //@   assigns nothing
 //@ func DateRange.IsBefore
 //@   props C05
-//@   requires shapeOK(dr.start.Day, dr.start.Month, dr.start.Year) && shapeOK(dr2.start.Day, dr2.start.Month, dr2.start.Year) && !dr.start.IsEndOfRange && !dr2.start.IsEndOfRange
-//@   ensures order: result == (yearsSpec(dr.start.Day, dr.start.Month, dr.start.Year) < yearsSpec(dr2.start.Day, dr2.start.Month, dr2.start.Year))
+//@   let ok = (shapeOK(dr.start.Day, dr.start.Month, dr.start.Year) && shapeOK(dr2.start.Day, dr2.start.Month, dr2.start.Year) && !dr.start.IsEndOfRange && !dr2.start.IsEndOfRange)
+//@   ensures order: implies(ok, result == (yearsSpec(dr.start.Day, dr.start.Month, dr.start.Year) < yearsSpec(dr2.start.Day, dr2.start.Month, dr2.start.Year)))
 //@   assigns nothing
 //@ func DateRange.IsAfter
 //@   props C05
-//@   requires shapeOK(dr.end.Day, dr.end.Month, dr.end.Year) && shapeOK(dr2.end.Day, dr2.end.Month, dr2.end.Year) && dr.end.IsEndOfRange && dr2.end.IsEndOfRange
-//@   requires !(dr.end.Year == 1 && dr.end.Month <= 1 && dr.end.Day <= 1) && !(dr2.end.Year == 1 && dr2.end.Month <= 1 && dr2.end.Day <= 1)
-//@   ensures order: result == (yearsSpec(dr.end.Day, dr.end.Month, dr.end.Year) > yearsSpec(dr2.end.Day, dr2.end.Month, dr2.end.Year))
+//@   let ok = (shapeOK(dr.end.Day, dr.end.Month, dr.end.Year) && shapeOK(dr2.end.Day, dr2.end.Month, dr2.end.Year) && dr.end.IsEndOfRange && dr2.end.IsEndOfRange) && (!(dr.end.Year == 1 && dr.end.Month <= 1 && dr.end.Day <= 1) && !(dr2.end.Year == 1 && dr2.end.Month <= 1 && dr2.end.Day <= 1))
+//@   ensures order: implies(ok, result == (yearsSpec(dr.end.Day, dr.end.Month, dr.end.Year) > yearsSpec(dr2.end.Day, dr2.end.Month, dr2.end.Year)))
 //@   assigns nothing
+
+// ---------------------------------------------------------------------------
+// C12 — similarity scores
+//
+//@ spec func simSpec(dist real, maxYears real) real = ite((dist/maxYears)*(dist/maxYears) > 1.0, 0.0, 1.0 - (dist/maxYears)*(dist/maxYears))
+//@ spec func rangeYears(sd int, sm int, sy int, ed int, em int, ey int) real = (yearsSpec(sd, sm, sy) + yearsSpec(ed, em, ey))/2.0
+//
+//@ func DateRange.Similarity
+//@   props C12
+//@   let ok = shapeOK(dr.start.Day, dr.start.Month, dr.start.Year) && shapeOK(dr.end.Day, dr.end.Month, dr.end.Year) && !dr.start.IsEndOfRange && dr.end.IsEndOfRange && !(dr.end.Year == 1 && dr.end.Month <= 1 && dr.end.Day <= 1) && shapeOK(dr2.start.Day, dr2.start.Month, dr2.start.Year) && shapeOK(dr2.end.Day, dr2.end.Month, dr2.end.Year) && !dr2.start.IsEndOfRange && dr2.end.IsEndOfRange && !(dr2.end.Year == 1 && dr2.end.Month <= 1 && dr2.end.Day <= 1)
+//@   ensures value: implies(ok && maxYears > 0.0, result == simSpec(rangeYears(dr.start.Day, dr.start.Month, dr.start.Year, dr.end.Day, dr.end.Month, dr.end.Year) - rangeYears(dr2.start.Day, dr2.start.Month, dr2.start.Year, dr2.end.Day, dr2.end.Month, dr2.end.Year), maxYears))
+//@   ensures range: implies(maxYears > 0.0, 0.0 <= result && result <= 1.0)
+//@   assigns nothing
+//@ lemma sim-range props C12: forallr(d, forallr(m, implies(m > 0.0, 0.0 <= simSpec(d, m) && simSpec(d, m) <= 1.0)))
+//@ lemma sim-symmetric props C12: forallr(d, forallr(m, implies(m > 0.0, simSpec(d, m) == simSpec(-d, m))))
+//@ lemma sim-identity props C12: forallr(m, implies(m > 0.0, simSpec(0.0, m) == 1.0))
+//@ lemma sim-cutoff props C12: forallr(d, forallr(m, implies(m > 0.0 && (d > m || d < -m), simSpec(d, m) == 0.0)))
+//@ lemma sim-monotone props C12: forallr(d1, forallr(d2, forallr(m, implies(m > 0.0 && 0.0 <= d1 && d1 <= d2, simSpec(d2, m) <= simSpec(d1, m)))))
+//
+// DateNode.DateRange parses lazily and caches; for the similarity contracts it
+// is opaque: any range, writes only the two cache fields of the receiver.
+//@ func DateNode.DateRange
+//@   assigns H.gedcom.DateNode.alreadyParsed, H.gedcom.DateNode.parsedDateRange.*
+//@   trusted
+//@ func DateNode.Similarity
+//@   props C12
+//@   ensures neutral: implies(node == nil || node2 == nil, result == 0.5)
+//@   ensures range: implies(maxYears > 0.0, 0.0 <= result && result <= 1.0)
+//
+//@ func SurroundingSimilarity.WeightedSimilarity
+//@   props C12
+//@   let unit = 0.0 <= s.ParentsSimilarity && s.ParentsSimilarity <= 1.0 && 0.0 <= s.IndividualSimilarity && s.IndividualSimilarity <= 1.0 && 0.0 <= s.SpousesSimilarity && s.SpousesSimilarity <= 1.0 && 0.0 <= s.ChildrenSimilarity && s.ChildrenSimilarity <= 1.0
+//@   let weights = s.Options.IndividualWeight >= 0.0 && s.Options.ParentsWeight >= 0.0 && s.Options.SpousesWeight >= 0.0 && s.Options.ChildrenWeight >= 0.0 && s.Options.IndividualWeight + s.Options.ParentsWeight + s.Options.SpousesWeight + s.Options.ChildrenWeight == 1.0
+//@   ensures range: implies(unit && weights, 0.0 <= result && result <= 1.0)
+//@   ensures identity: implies(weights && s.ParentsSimilarity == 1.0 && s.IndividualSimilarity == 1.0 && s.SpousesSimilarity == 1.0 && s.ChildrenSimilarity == 1.0, result == 1.0)
+//@   ensures value: result == s.IndividualSimilarity*s.Options.IndividualWeight + s.ParentsSimilarity*s.Options.ParentsWeight + s.SpousesSimilarity*s.Options.SpousesWeight + s.ChildrenSimilarity*s.Options.ChildrenWeight
+//@   assigns nothing
+//@ func NewSimilarityOptions
+//@   props C12
+//@   ensures weights-sum-to-one: abs(result.IndividualWeight + result.ParentsWeight + result.SpousesWeight + result.ChildrenWeight - 1.0) <= 0.000000000001
+//@   ensures weights-nonnegative: result.IndividualWeight >= 0.0 && result.ParentsWeight >= 0.0 && result.SpousesWeight >= 0.0 && result.ChildrenWeight >= 0.0
+//@   ensures ratio: 0.0 <= result.NameToDateRatio && result.NameToDateRatio <= 1.0 && result.MaxYears > 0.0 && 0 <= result.JaroPrefixSize && result.JaroPrefixSize <= 10
+//@   assigns nothing
+//@ func NewSurroundingSimilarity
+//@   props C12
+//@   ensures result != nil && fresh(result)
+
+// ---------------------------------------------------------------------------
+// Frame contracts (K3), checked by gv's frame engine: a `frame` block lists
+// the fields an operation may write on objects that existed before the call
+// (everything else must be left alone) and, with `result-fresh`, the link
+// fields through which its result may reach only objects created by the call.
+//
+// CACHE fields (lazily filled views; the abstract document does not depend on them):
+//@ fieldgroup caches = global:gedcom.nodeCache, Document.pointerCache, Document.families, FamilyNode.husband, FamilyNode.wife, FamilyNode.cachedHusband, FamilyNode.cachedWife, IndividualNode.families, IndividualNode.spouses, IndividualNode.cachedFamilies, IndividualNode.cachedSpouses, IndividualNode.cachedUniqueIDs, DateNode.parsedDateRange*, DateNode.alreadyParsed, sync:*, sync.Map, ext:*sync.Map, ext:*bytes.Buffer, ext:*strings.Builder, closure
+// fields of a NodeDiff itself
+//@ fieldgroup diffown = NodeDiff.Left, NodeDiff.Right, NodeDiff.Children, elem:*NodeDiff
+// edges that make up a node tree
+//@ fieldgroup tree = SimpleNode.children, elem:Node, Document.nodes
+//
+// C08: computing, printing, sorting or querying a diff never modifies the compared trees
+//@ frame CompareNodes
+//@   props C08 C13
+//@   allows @caches, @diffown
+//@ frame NodeDiff.String
+//@   props C08
+//@   allows @caches, @diffown
+//@ frame NodeDiff.IsDeepEqual
+//@   props C08
+//@   allows @caches, @diffown
+//@ frame NodeDiff.Sort
+//@   props C08
+//@   allows @caches, @diffown
+//@ frame NodeDiff.Tag
+//@   props C08
+//@   allows @caches, @diffown
+//@ frame NodeDiff.traverse
+//@   props C08
+//@   allows @caches, @diffown
+//
+// C07 / C09: copies and merges are built from fresh nodes and leave their inputs alone
+//@ frame DeepCopy
+//@   props C07 C09 C13
+//@   allows @caches, Document.nodes, elem:Node
+//@   result-fresh @tree
+//@ frame MergeNodes
+//@   props C09
+//@   allows @caches, Document.nodes, elem:Node
+//@   result-fresh @tree
+//@ frame MergeNodeSlices
+//@   props C09
+//@   allows @caches, Document.nodes, elem:Node
+//@   result-fresh @tree
+//@ frame EqualityMergeFunction
+//@   props C09
+//@   allows @caches, Document.nodes, elem:Node
+//@   result-fresh @tree
